@@ -51,6 +51,7 @@ pub fn run() {
         let mut carrier_keep = None;
         let dropper: Option<std::thread::JoinHandle<()>> = match how.as_str() {
             "polled" => Some(std::thread::spawn(move || {
+                drop(extra);
                 // messages sent only after the transfer, with the new owner already waiting; then the last sender goes
                 for k in 0..clones as u32 {
                     std::thread::sleep(Duration::from_micros(delay_us / 2 + 1));
